@@ -44,7 +44,7 @@ def check(run):
 
 def split(run, p, fc):
     from ..pyeval import Interp, Obj, Unsupported, Raised, FakeFS, pure_os, pure_sys
-    texts = ['a\nb\nc\n', 'a\r\nb\rc\nd', 'x\x0by\x0cz\n', 'p\x1cq\x1dr\x1es\n', 'u\u2028v\u2029w\x85t', 'last line no newline', '', '\n', '\n\n']
+    texts = ['a \n b\t\nc\n', 'a\nb\nc\n', 'a\r\nb\rc\nd', 'x\x0by\x0cz\n', 'p\x1cq\x1dr\x1es\n', 'u\u2028v\u2029w\x85t', 'last line no newline', '', '\n', '\n\n']
     run.rule('C04-SPLIT', 'actual text and reference text are cut into lines alike in every entry point: check_file given two files '
                           'with the same content, and check_string_against_file given a string and a file with that content, hand '
                           'check_strings two equal line lists - evaluated for %d texts holding every line terminator Python knows '
@@ -79,9 +79,15 @@ def split(run, p, fc):
                 bad.append((text, 'check_strings is called %d times' % len(seen)))
             elif seen[0][0] != seen[0][1]:
                 bad.append((text, 'actual lines %r, reference lines %r' % seen[0]))
+            else:
+                # and the lines are the content: nothing but line terminators is dropped on the way
+                import re as _re
+                kept = ''.join(seen[0][1])
+                if kept != _re.sub(r'[\n\r\x0b\x0c\x1c\x1d\x1e\x85\u2028\u2029]', '', text):
+                    bad.append((text, 'the lines handed on are %r: characters of the content are lost' % (seen[0][1],)))
         run.ob('C04-SPLIT', '%s::%s' % (f.rel, f.short), not bad,
                '%s: the same content on both sides gives the same lines%s' % (name, '' if not bad else ' - not for %r: %s' % bad[0]), fn=f)
-    run.floor('C04-SPLIT', n, 18)
+    run.floor('C04-SPLIT', n, 20)
 
 
 def prop(run, p, pid, assert_names):
@@ -316,6 +322,11 @@ def _text_cases():
            ('removable-only-with-its-blanks', ['alpha', '  pad  ', 'beta 12 ms', 'gamma ray', 'delta'], ['alpha', 'beta 12 ms', 'gamma ray', 'pad', 'delta', '  pad ']),
            ('removal-evens-out-the-raw-line-counts', ['alpha', 'SKIP one', 'beta 12 ms', 'gamma ray'], list(ref)),
            ('removal-evens-out-raw-counts-reference-side', list(ref), ['alpha', 'beta 12 ms', 'gamma ray', 'SKIP x']),
+           ('removal-text-is-not-a-pattern', ['alpha', 'x marks the spot', 'beta 12 ms', 'gamma ray', 'delta'], list(ref)),
+           ('removal-text-with-metacharacters', ['alpha', 'tail [x] here', 'beta 12 ms', 'rev v1.0 built', 'gamma ray', 'delta'], list(ref)),
+           ('removal-dot-is-literal', ['alpha', 'rev1c0de', 'beta 12 ms', 'gamma ray', 'delta'], list(ref)),
+           ('removed-reference-line-shifts-the-numbering', ['alpha', 'gamma ray', 'beta 99 ms', 'delta'], ['SKIP x', 'alpha', 'gamma ray', 'beta 12 ms', 'delta']),
+           ('removed-line-above-an-ignorable-pair', ['alpha', 'something else', 'beta 12 ms', 'delta'], ['SKIP x', 'alpha', 'gamma ray', 'beta 12 ms', 'delta']),
            ('trailing-empty-element', ref + [''], list(ref)),
            ('trailing-empty-both', ref + [''], ref + ['']),
            ('empty-line-inside', ['alpha', '', 'beta 12 ms', 'gamma ray', 'delta'], list(ref)),
@@ -347,7 +358,7 @@ def oracle(run, p, fc):
     for name, actual, expected in cases:
         bad = []
         for lstrip, rstrip, subs, pats, removes, maxperm, pre in itertools.product(
-                (False, True), (False, True), (None, ['gamma']), (None, [r'\d+']), (None, ['SKIP', '  pad ']), (0, 3), ((None, drop_comments) if run.tier == 'thorough' or name == 'comment-line-added' else (None,))):
+                (False, True), (False, True), (None, ['gamma']), (None, [r'\d+']), (None, ['SKIP', '  pad ', '[x]', 'v1.0']), (0, 3), ((None, drop_comments) if run.tier == 'thorough' or name == 'comment-line-added' else (None,))):
             I = Interp(p)
             I.safe_modules = {'re'}
             I.extra_names.update({'os': pure_os(), 'sys': pure_sys()})
@@ -377,4 +388,4 @@ def oracle(run, p, fc):
                            '%d option combinations disagree, e.g. %r: check_strings %s, the rule says %s (actual %r, reference %r)' % (
                                len(bad), bad[0][0], 'passes' if bad[0][1] is True else ('fails' if bad[0][1] is False else bad[0][1]),
                                'pass' if bad[0][2] else 'fail', actual, expected)), fn=f)
-    run.floor('C04-ORACLE', n, 1800)
+    run.floor('C04-ORACLE', n, 2100)
